@@ -182,8 +182,22 @@ struct SIMDVector<double, simd_abi::avx512> {
     FASTOR_INLINE SIMDVector<double,simd_abi::avx512> reverse() {
         return _mm512_reverse_pd(value);
     }
-    // FASTOR_INLINE double minimum() {return _mm512_hmin_pd(value);}
-    // FASTOR_INLINE double maximum() {return _mm512_hmax_pd(value);}
+    FASTOR_INLINE double minimum() {
+        FASTOR_ARCH_ALIGN double vals[Size];
+        _mm512_store_pd(vals, value);
+        double quan = vals[0];
+        for (FASTOR_INDEX i=1; i<Size; ++i)
+            if (vals[i]<quan) quan = vals[i];
+        return quan;
+    }
+    FASTOR_INLINE double maximum() {
+        FASTOR_ARCH_ALIGN double vals[Size];
+        _mm512_store_pd(vals, value);
+        double quan = vals[0];
+        for (FASTOR_INDEX i=1; i<Size; ++i)
+            if (vals[i]>quan) quan = vals[i];
+        return quan;
+    }
 
     FASTOR_INLINE double dot(const SIMDVector<double,simd_abi::avx512> &other) {
         __m512d res =  _mm512_mul_pd(value,other.value);
